@@ -104,7 +104,7 @@ class Ctx:
         self.muted = set(job.get("muted", []))
         self.journal_path = job.get("journal")
         self.budget_s = float(job.get("budget_s", 1e9))
-        self.t0 = time.time()
+        self.t0 = self.t_start = time.time()
         self.evaluations = 0
         self.hashes = set()
         self.labels = {}
@@ -194,6 +194,7 @@ class Ctx:
 
     # ---- enumeration (no Hypothesis) ----------------------------------------------------------
     def run_cases(self, sub, cases, check, sharded=True, max_sigs=8):
+        self.t0 = time.time()      # the budget is per sub-search: a slow first family never starves the later ones
         best = {}
         for i, case in enumerate(cases):
             if sharded and (i % self.nshards) != self.shard:
@@ -218,6 +219,7 @@ class Ctx:
 
         if max_examples <= 0:
             return
+        self.t0 = time.time()      # the budget is per sub-search: a slow first family never starves the later ones
         phases = [Phase.explicit, Phase.generate]
         if shrink:
             phases.append(Phase.shrink)
@@ -280,5 +282,5 @@ class Ctx:
             "budget_hit": self.budget_hit,
             "notes": self.notes,
             "sub_counts": self.sub_counts,
-            "wall_s": round(time.time() - self.t0, 2),
+            "wall_s": round(time.time() - self.t_start, 2),
         }
